@@ -795,6 +795,12 @@ impl EliasFanoBuilder {
     /// [`build_with_seq_and_dict`](EliasFanoConcurrentBuilder::build_with_seq_and_dict)
     /// methods are more convenient.
     pub fn build(self) -> EliasFano {
+        if self.count != self.n {
+            panic!(
+                "Too few values: {} values declared, but only {} provided",
+                self.n, self.count
+            );
+        }
         let high_bits: BitVec<Box<[usize]>> = self.high_bits.into();
         EliasFano {
             n: self.n,
